@@ -67,6 +67,7 @@ class FakeStatus:
 
     done = True
     success = True
+    name = "status"
 
     def add_callback(self, callback):
         callback(self)
@@ -614,7 +615,7 @@ def _strategy():
 
 
 def run(ctx):
-    ctx.hyp(_strategy, check_case, max_examples=ctx.pick(8000, 200000))
+    ctx.hyp(_strategy, check_case, max_examples=ctx.pick(6000, 200000))
 
 
 def replay(case):
